@@ -322,9 +322,10 @@ package analysis
 
 // every struct node of the table gets its Implements list from setImplements (whose contract says what it holds)
 //@ func (*Analysis).populateTypes
-//@   props C11
+//@   props C11 C12
 //@   requires an != nil
-//@   modifies *
+//@   modifies an.Types, F$github.com.benoitkugler.gomacro.analysis.Struct.Implements, G$implementsSet
+//@   ensures tableOK(an)
 //@   ensures forall t types.Type :: has(an.Types, t) && is(an.Types[t], *Struct) ==> ghost("implementsSet", an.Types[t]) == 1
 //@   loop an.Source.1 invariant tableOK(an) && ctxOK(ctx)
 //@   loop an.Types.1 visited done
@@ -350,3 +351,80 @@ package analysis
 //@   pure
 //@   requires st.Field != nil
 //@   ensures result <==> (st.Field.Exported() && st.Tag.Get("json") != "-" && st.Tag.Get("gomacro") != "ignore")
+
+
+// ---------------------------------------------------------------- C12 (kernel)
+
+//@ func NewAnalysisFromTypes
+//@   props C12
+//@   modifies F$github.com.benoitkugler.gomacro.analysis.Struct.Implements, G$implementsSet
+//@   ensures result != nil && result.Source == source && result.Pkg == pkg && tableOK(result)
+
+// the source declarations are reported in source order
+//@ func NewAnalysisFromFile
+//@   props C12
+//@   requires pkg != nil && pkg.Types != nil && pkg.Fset != nil
+//@   modifies F$github.com.benoitkugler.gomacro.analysis.Struct.Implements, G$implementsSet
+//@   ensures result != nil
+//@   ensures forall i, j int :: 0 <= i && i < j && j < len(result.Source) && is(result.Source[i], *types.Named) && is(result.Source[j], *types.Named) ==> as(result.Source[i], *types.Named).Obj().Pos() <= as(result.Source[j], *types.Named).Obj().Pos()
+//@   -- every reported declaration is a type name of the package scope declared in that file, and all of them are reported
+//@   ensures forall k int :: 0 <= k && k < len(result.Source) ==> (exists i int :: 0 <= i && i < nameCount(pkg.Types.Scope()) && declaredHere(pkg, nameAt(pkg.Types.Scope(), i), filepath.Abs(sourceFile)) && result.Source[k] == pkg.Types.Scope().Lookup(nameAt(pkg.Types.Scope(), i)).Type())
+//@   ensures forall i int :: 0 <= i && i < nameCount(pkg.Types.Scope()) && declaredHere(pkg, nameAt(pkg.Types.Scope(), i), filepath.Abs(sourceFile)) ==> (exists k int :: 0 <= k && k < len(result.Source) && result.Source[k] == pkg.Types.Scope().Lookup(nameAt(pkg.Types.Scope(), i)).Type())
+//@   loop scope.Names().1 index n
+//@   loop scope.Names().1 invariant forall k int :: 0 <= k && k < len(objs) ==> objs[k] != nil && is(objs[k], *types.TypeName) && (exists i int :: 0 <= i && i < n && declaredHere(pkg, nameAt(scope, i), sourceFileAbs) && objs[k] == scope.Lookup(nameAt(scope, i)))
+//@   loop scope.Names().1 invariant forall i int :: 0 <= i && i < n && declaredHere(pkg, nameAt(scope, i), sourceFileAbs) ==> (exists k int :: 0 <= k && k < len(objs) && objs[k] == scope.Lookup(nameAt(scope, i)))
+//@   loop scope.Names().1 invariant isnil(objs) || (fresh(objs) && allocated(objs))
+//@   loop objs.1 index m
+//@   loop objs.1 invariant len(nameds) == len(objs) && (forall k int :: 0 <= k && k < m ==> nameds[k] == objs[k].Type())
+
+// the name nm of the package scope is a type declared in the file `file`
+//@ pred declaredHere(pkg *packages.Package, nm string, file string) bool = pkg.Fset.Position(pkg.Types.Scope().Lookup(nm).Pos()).Filename == file && is(pkg.Types.Scope().Lookup(nm), *types.TypeName)
+
+// converting a node back to a Go type: each node kind rebuilds the type from its own links
+// (Type() of a child node is an uninterpreted function of the child: interface dispatch is not modelled)
+//@ func (*Enum).Type
+//@   props C12
+//@   requires e != nil
+//@   ensures result == e.name
+//@ func (*Union).Type
+//@   props C12
+//@   requires u != nil
+//@   ensures result == u.name
+//@ func (*Struct).Type
+//@   props C12
+//@   requires cl != nil
+//@   ensures result == cl.Name
+//@ func (*Named).Type
+//@   props C12
+//@   requires na != nil
+//@   ensures result == na.name
+//@ func (*Basic).Type
+//@   props C12
+//@   requires b != nil
+//@   ensures result == b.B
+//@ func (*Time).Type
+//@   props C12
+//@   requires ti != nil
+//@   ensures result == ite(ti.IsDate, dateTy, timeTy)
+
+// every implementation of Type.Type() is a pure function of the node (read from the source: they only read fields)
+//@ puremethod Type.Type
+
+//@ func (*Array).Type
+//@   props C12
+//@   requires ar != nil && ar.Elem != nil
+//@   ensures ar.Len >= 0 ==> result == types.NewArray(ar.Elem.Type(), ar.Len)
+//@   ensures ar.Len < 0 ==> result == types.NewSlice(ar.Elem.Type())
+//@ func (*Map).Type
+//@   props C12
+//@   requires ma != nil && ma.Key != nil && ma.Elem != nil
+//@   ensures result == types.NewMap(ma.Key.Type(), ma.Elem.Type())
+//@ func (*Pointer).Type
+//@   props C12
+//@   requires p != nil && p.Elem != nil
+//@   ensures result == types.NewPointer(p.Elem.Type())
+
+// simplified kind of a basic type, from the go/types flags (bit tests are uninterpreted: only the order of the tests is checked)
+//@ func NewBasicKind
+//@   props C12
+//@   ensures !result2 ==> result1 == 0
